@@ -1,6 +1,7 @@
 (* C05 — count and bin_average attribute each sample to exactly its own bin.
    Statements only; proofs in Proofs/CountProofs.v and Proofs/RestrictProofs.v.
    Ticks; bin centres are reported doubled (2*centre = 2*l + b). *)
+From Coq Require Import QArith.
 From Verif Require Import Base.Prelude Model.Restrict Model.Count Proofs.RestrictProofs Proofs.CountProofs.
 
 (* 1. without a bin size: per-interval counts over the closed intervals; they sum to len(restrict) *)
@@ -32,6 +33,49 @@ Theorem C05_bin_average : forall ts vs ep b, 0 < b -> sortedZ ts -> canonical ep
 Proof. exact bin_sum_cnt_spec. Qed.
 Print Assumptions C05_bin_average.
 
+(* 3b. the division and the NaN made explicit: what bin_average REPORTS per bin is the exact rational mean sum/count of the
+       values of that interval's samples with l <= t < l+b, and NaN (None) iff there is none.  [mean_of] is the last line of
+       _jitbin_array (average[0:b] / cnt[0:b]: 0/0 = NaN) on the model's (count, sum) pairs. *)
+Definition mean_of (n : nat) (sm : Z) : option Q :=
+  match n with O => None | S _ => Some (sm # Pos.of_nat n) end.
+Definition bin_average_model (ts vs : list Z) (ep : iset) (b : Z) : list (Z * option Q) :=
+  map (fun '(c, (n, sm)) => (c, mean_of n sm)) (bin_sum_cnt ts vs ep b).
+Definition bin_values (ts vs : list Z) (s e l b : Z) : list Z :=
+  map snd (filter (fun tv => inb (fst tv) (s, e) && in_bin l b (fst tv)) (combine ts vs)).
+
+Theorem C05_bin_average_mean : forall ts vs ep b, 0 < b -> sortedZ ts -> canonical ep -> length vs = length ts ->
+  bin_average_model ts vs ep b =
+  concat (map (fun '(s, e) =>
+     map (fun j => let l := s + Z.of_nat j * b in
+            (2 * l + b, mean_of (length (bin_values ts vs s e l b)) (sumZ (bin_values ts vs s e l b))))
+         (seq 0 (n_reported s e b))) ep).
+Proof.
+  intros ts vs ep b Hb Hs Hc Hl. unfold bin_average_model.
+  rewrite (bin_sum_cnt_spec ts vs ep b Hb Hs Hc Hl).
+  rewrite concat_map, map_map. f_equal.
+  apply map_ext. intros [s e]. rewrite map_map. apply map_ext. intros j. cbv zeta.
+  unfold bin_values. rewrite map_length.
+  rewrite (filter_combine_count (fun t => inb t (s, e) && in_bin (s + Z.of_nat j * b) b t) ts vs Hl). reflexivity.
+Qed.
+Print Assumptions C05_bin_average_mean.
+
+(* NaN iff no sample; otherwise mean * count = sum, exactly *)
+Theorem C05_mean_nan_iff_empty : forall vals : list Z, mean_of (length vals) (sumZ vals) = None <-> vals = [].
+Proof. intros vals. destruct vals; simpl; split; intros H; congruence. Qed.
+Print Assumptions C05_mean_nan_iff_empty.
+
+Theorem C05_mean_times_count : forall (vals : list Z) (q : Q), mean_of (length vals) (sumZ vals) = Some q ->
+  Qeq (Qmult q (inject_Z (Z.of_nat (length vals)))) (inject_Z (sumZ vals)).
+Proof.
+  intros vals q H. destruct vals as [|v r]; [discriminate|].
+  remember (length (v :: r)) as n. destruct n as [|n]; [discriminate|].
+  simpl in H. injection H as <-. unfold Qeq, Qmult, inject_Z. cbn [Qnum Qden].
+  rewrite !Z.mul_1_r, Pos.mul_1_r.
+  replace (Z.of_nat (S n)) with (Z.pos (Pos.of_nat (S n))) by (rewrite <- Znat.positive_nat_Z, Nat2Pos.id by discriminate; reflexivity).
+  reflexivity.
+Qed.
+Print Assumptions C05_mean_times_count.
+
 (* 4. no sample is counted twice or in a neighbouring bin *)
 Theorem C05_bins_disjoint : forall s b j j' t, 0 < b -> j <> j' ->
   in_bin (s + Z.of_nat j * b) b t && in_bin (s + Z.of_nat j' * b) b t = false.
@@ -55,4 +99,12 @@ Example C05_nonvacuous :
   sortedZ [0; 1; 2; 3; 4; 5; 6; 7; 8; 9; 10] /\ canonical [(0, 3); (5, 10)]
   /\ count_binned [0; 1; 2; 3; 4; 5; 6; 7; 8; 9; 10] [(0, 3); (5, 10)] 2
      = [(2, 2%nat); (6, 2%nat); (12, 2%nat); (16, 2%nat); (20, 2%nat)].
+Proof. vm_compute. intuition congruence. Qed.
+
+(* The centre test is the EXACT one (doubled, on half-ticks), also when the bin size is an odd number of ticks: a bin whose centre lies
+   half a tick beyond the end is not reported (pynapple up to d86eb2b rounds the centre to a tick first and reports it: harness
+   finding centre_rounded_to_ns), one whose centre lies half a tick before the end is. *)
+Example C05_half_tick_beyond_end_not_reported :
+  count_binned [0] [(0, 500)] 1001 = [] /\ count_binned [0] [(0, 2)] 1 = [(1, 1%nat); (3, 0%nat)]
+  /\ count_binned [0] [(0, 7)] 3 = [(3, 1%nat); (9, 0%nat)] /\ count_binned [0] [(0, 501)] 1001 = [(1001, 1%nat)].
 Proof. vm_compute. intuition congruence. Qed.
